@@ -335,4 +335,30 @@ def counterAfter (M : Nat) : Nat → Nat
 /-- id returned by the `n`-th allocation (n = 0 is the first) -/
 def idAt (M n : Nat) : Nat := (allocId M (counterAfter M n)).1
 
+/-! ### the owner's sessions map (`impls.ClientSessions.sessions`), any number of connections -/
+
+/-- `ClientSessions`: the id counter and the map id ↦ FrontSession (here: ↦ the connection it wraps).
+All lookups of the Go code are by id (`session.GetId()`), never by object. -/
+structure Own where
+  counter : Nat := 1
+  live : List (Nat × Nat) := []
+
+/-- `findSession(id)` / `s.sessions[id]` -/
+def Own.lookup (o : Own) (id : Nat) : Option Nat := (o.live.find? (fun p => p.1 == id)).map (·.2)
+
+/-- `AddSession`: allocate, `SetId`, store (a map store overwrites an entry with the same id); returns the id -/
+def Own.add (M : Nat) (o : Own) (k : Nat) : Own × Nat :=
+  let a := allocId M o.counter
+  ({ counter := a.2, live := (a.1, k) :: o.live.filter (fun p => p.1 != a.1) }, a.1)
+
+/-- `RemoveSession(session)` with `session.GetId() = id`: the entry found under that id is deleted and ITS FrontSession is
+what the handler and the close callbacks get; `none`: "remove a session not exist", nothing happens -/
+def Own.remove (o : Own) (id : Nat) : Own × Option Nat :=
+  match o.lookup id with
+  | none => (o, none)
+  | some k => ({ o with live := o.live.filter (fun p => p.1 != id) }, some k)
+
+/-- `PushMsg(ids)`: the connections whose `Session.Push` is called, in order (an id nobody holds is skipped: `onSessionMissed`) -/
+def Own.pushTargets (o : Own) (ids : List Nat) : List Nat := ids.filterMap o.lookup
+
 end Cell2v.Session
